@@ -18,6 +18,8 @@ import PyTealV.Cmd.C18
 import PyTealV.Cmd.Arc4
 import PyTealV.Cmd.C19
 import PyTealV.Cmd.C11
+import PyTealV.Cmd.C09
+import PyTealV.Cmd.C05
 namespace PyTealV.Cmd
 
 def extraCommands : List (String × (List String → String)) := [
@@ -59,7 +61,10 @@ def extraCommands : List (String × (List String → String)) := [
   ("arc4-norm", Arc4.normCmd),
   ("c19-assignable", C19.assignableCmd),
   ("c19-classes", C19.classesCmd),
-  ("c11-run", C11.runCmd)
+  ("c11-run", C11.runCmd),
+  ("c09-const", C09.const), ("c09-glue", C09.glueCmd), ("c09-binding", C09.bindingCmd),
+  ("c09-run", C09.runCmd), ("c09-wrap", C09.wrapCmd), ("c09-contract", C09.contractCmd),
+  ("c05-check", C05.check)
 ]
 
 def dispatch (cmd : String) (args : List String) : Option String :=
